@@ -55,8 +55,18 @@ fn squeeze(s: &str) -> String {
 }
 
 pub fn long_cases(ctx: &mut Ctx) {
+    long_cases_inner(ctx);
+    let p = ctx.prop.clone();
+    ctx.canary_check(&format!("the last long-input case for {}", p));
+}
+
+fn long_cases_inner(ctx: &mut Ctx) {
     let prop = ctx.prop.clone();
-    for n in sizes(ctx) {
+    for (step, n) in sizes(ctx).into_iter().enumerate() {
+        // what a long input leaves behind on this thread (scratch buffers, caches with a size cap)
+        if step > 0 {
+            ctx.canary_check(&format!("the long-input case of the previous step for {}", prop));
+        }
         let desc_n = format!("{} words", n);
         ctx.count("long_input_cases");
         let w = 5 + ctx.rng.below(30);
